@@ -1,5 +1,19 @@
-"""C13 — every runtime error and warning is delivered exactly once."""
-import json, re
+"""C13 — every runtime error and warning is delivered exactly once.
+
+Strengthened twice against seeded changes:
+  (a) look-ahead warnings copied onto the restored state by the rewind (`message-delivered-twice` on the loop-free
+      programs of EXTRA);
+  (b) a host operation other than reset_state that clears / re-delivers / duplicates the PENDING messages
+      (seeded: load_state clearing them).  Class covered now: between the continue that raised a message and the
+      reset, every other host operation (LOAD of any save into the same story, SAVE, flow switches / removals,
+      SETVAR, EVAL, observer (un)registration, failing PATH / CHOOSE, refused CONT, queries) is injected, with and
+      without a handler, on hand-written AND generated programs into which runtime faults (division / modulo by
+      zero, divert through a non-target variable, read of a not-yet-declared temporary) are planted at random
+      points; the oracle reads the pending message lists (inkdrive op MSGS) and can_continue before and after
+      every injected operation, and the same scripts run through the save-aware engine model
+      (tools/engine_save.py), whose LOAD keeps the messages (Props/C13.v::load_state_keeps_errors_and_warnings).
+"""
+import copy, json, re
 import vlib, engine
 from props import hist
 
@@ -11,6 +25,12 @@ ASSUMPTIONS = [
     "tie: engine.compare on the same scripts (handler events carry the message class)",
     "oracle on the implementation: programs raising warnings and errors at chosen points x with/without handler x all "
     "later continues, choices and resets",
+    "pending messages vs other host operations: hand-written and generated programs with planted runtime faults x paths "
+    "that end with messages pending x {handler, no handler} x host operations injected before the reset (LOAD of a "
+    "save taken before / after the raise, SAVE, SWITCH/SWITCH_DEFAULT/REMOVE_FLOW, SETVAR, EVAL, OBSERVE/UNOBSERVE, "
+    "failing PATH/CHOOSE, refused CONT, queries): the pending lists (full text) are unchanged (only grow by a "
+    "continue that really runs), an error keeps can_continue false, the handler is not called by a non-running "
+    "operation; tie for these scripts: engine_save.compare (Engine/RunSave.v, LOAD keeps the messages)",
 ]
 
 EXTRA = [
@@ -65,10 +85,23 @@ Last {v}.
 * [a] A.
 * [b] B. -> END
 """),
+    # an error (and a warning) raised some lines after a point where a healthy save can be taken
+    ("err-divzero-late", """VAR divisor = 0
+Line one.
+Line two. {w}
+~ temp w = 1
+-> trouble
+== trouble ==
+~ temp boom = 10 / divisor
+Never shown {boom}.
+-> END
+=== function twice(a) ===
+~ return a * 2
+"""),
 ]
 
 
-LOOP_FREE = {"warn-temp", "warn-lookahead", "warn-lookahead-glue", "err-divert-var", "err-runout"}
+LOOP_FREE = {"warn-temp", "warn-lookahead", "warn-lookahead-glue", "err-divert-var", "err-runout", "err-divzero-late"}
 
 
 def events(line):
